@@ -11,7 +11,7 @@
    setExponent), Quo, Context.SetString; named ..._partial where the statement is restricted. *)
 From Coq Require Import ZArith Bool.
 From Apd Require Import Generated.Consts Model.Base Model.NumDigits Model.Decimal Model.Context Spec.SpecZ
-  Proofs.Core Proofs.SetExponent Proofs.RoundSpec Proofs.OpsProofs Proofs.OpsProjections.
+  Proofs.Core Proofs.SetExponent Proofs.RoundSpec Proofs.OpsProofs Proofs.QuoProofs Proofs.OpsProjections.
 Open Scope Z_scope.
 
 Theorem C01_round est : est_in_range est -> forall c (x : dec), ctx_ok c -> finite_nn x -> exact_in_limits c (exact_of_dec x) ->
@@ -44,6 +44,16 @@ Theorem C01_spec_rounding_brackets mode ng n k : 0 <= n -> 0 < k -> n / k <= rnd
 Proof. exact (RoundBasics.rndZ_bounds mode ng n k). Qed.
 Print Assumptions C01_spec_rounding_brackets.
 
+(* Quo: for EVERY pair of finite operands with a non-zero divisor - any digit counts, any exponents, ties,
+   all-nines carries, quotients in, above and below the normal range (where Quo keeps the remainder as a
+   sticky digit and setExponent rounds once to Etiny).  quo_hyps: well-formed context and operands, and
+   the exponent of the quotient (mag_frac: its decimal magnitude) stays inside the package limits with
+   room for a carry ("subject only to the exponent limits"). *)
+Theorem C01_quo est : est_in_range est -> forall c (x y : dec), quo_hyps c x y ->
+  exists d f, ctx_quo est c x y = Ok (finish c d f) /\ c01_post c (exact_quo x y) d.
+Proof. exact (c01_quo est). Qed.
+Print Assumptions C01_quo.
+
 (* non-vacuity: concrete operands satisfying every hypothesis, and what the model returns *)
 Example C01_example_hyps :
   let c := mkCtx 3 5 (-5) c0 RFloor in
@@ -53,4 +63,17 @@ Proof. unfold ctx_ok, finite_nn, exact_in_limits, SetExponent.in_lim. cbn. repea
 Example C01_example_run :
   let c := mkCtx 3 5 (-5) c0 RFloor in
   rdec_value (ctx_round_op go_est c (mkDec Finite true (-9) 15)) = Some (mkDec Finite true (-7) 1).
+Proof. vm_compute. reflexivity. Qed.
+
+(* Quo, non-vacuity: the witness of the repaired defect F3 (a subnormal quotient whose remainder decides the
+   rounding) satisfies every hypothesis, and the model returns the correctly rounded 2E-7 *)
+Example C01_quo_example_hyps :
+  quo_hyps (mkCtx 3 5 (-5) c0 RHalfDown) (mkDec Finite false (-14) 15000001) (mkDec Finite false 0 1).
+Proof.
+  unfold quo_hyps, ctx_ok, finite_nn, quo_limits, SetExponent.in_lim. cbn [prec emin emax form_of coeff exp].
+  repeat split; try discriminate; try Lia.lia; vm_compute; try Lia.lia; intros; discriminate.
+Qed.
+Example C01_quo_example_run :
+  rdec_value (ctx_quo go_est (mkCtx 3 5 (-5) c0 RHalfDown) (mkDec Finite false (-14) 15000001) (mkDec Finite false 0 1))
+  = Some (mkDec Finite false (-7) 2).
 Proof. vm_compute. reflexivity. Qed.
